@@ -51,7 +51,14 @@ type Contract struct {
 	ParamNames  []string
 	Asserts     []*Clause // (unused)
 	Regions     []*Region
+	Callsites   []*Callsite
 	MayPanic    bool // function is allowed to panic (callers get no guarantee either)
+}
+
+// Callsite: an assertion that must hold immediately before every call of a named callee inside the function.
+type Callsite struct {
+	Callee string
+	C      *Clause
 }
 
 // Region: obligations over a sub-graph of a function that is otherwise outside the subset.
@@ -104,7 +111,7 @@ func newSpecs() *Specs {
 	return &Specs{Contracts: map[string]*Contract{}, Pures: map[string]*PureFn{}, Lemmas: map[string]*Lemma{}}
 }
 
-var keywordRe = regexp.MustCompile(`^(package|func|requires|ensures|modifies|loop|trusted|inline|noinline|maypanic|pure|uninterp|lemma|global|region|from|to|params)\b`)
+var keywordRe = regexp.MustCompile(`^(package|func|requires|ensures|modifies|loop|trusted|inline|noinline|maypanic|pure|uninterp|lemma|global|region|from|to|params|callsite)\b`)
 
 // expandKey turns "(*T).M" / "(T).M" / "F" into the ssa qualified name for pkgPath.
 // Keys that already contain a '/' or a '.' before the first '(' are taken as written.
@@ -350,6 +357,19 @@ func (sp *Specs) ParseFile(path string, defaultPkg string) {
 				}
 			default:
 				sp.errf(path, rc.line, "bad loop clause kind %q", f[1])
+			}
+		case "callsite":
+			if cur == nil {
+				sp.errf(path, rc.line, "callsite outside func")
+				continue
+			}
+			i := strings.Index(rest, ":")
+			if i < 0 {
+				sp.errf(path, rc.line, "callsite needs 'callee: expr'")
+				continue
+			}
+			if c := mkClause(strings.TrimSpace(rest[i+1:]), rc.line); c != nil {
+				cur.Callsites = append(cur.Callsites, &Callsite{Callee: strings.TrimSpace(rest[:i]), C: c})
 			}
 		case "trusted":
 			if cur != nil {
